@@ -1008,6 +1008,8 @@ def py_runtime_func(ctx: core.Ctx, cls, name, keep=("_process_model", "tick")):
     from . import normast
     mod = ctx.parse("py/formak/runtime.py")
     fn = core.need(core.find_func(cls, name), f"runtime.ManagedFilter.{name}")
+    # the held estimate read / written through a property pair is the attributes the pair reads / writes
+    fn = normast.subst_rw_properties(fn, normast.rw_properties(cls, constructors=set(normast.module_namedtuples(mod))))
     out = normast.inline_only(fn, normast.class_resolver(mod, cls, exclude=set(keep)))
     inl = list(getattr(out, "_inlined", []))
     for h in inl:
